@@ -1,6 +1,6 @@
 #!/bin/bash
 cd /verif
-for d in seeded/C*-*; do
+for d in seeded/${ONLY:-C*}-*; do
   id=$(basename $d | cut -d- -f1)
   p=/verif/$d/patch.diff
   [ -f $p ] || continue
